@@ -120,6 +120,8 @@ op("load_unaligned", "B::load_unaligned(p)", "p", ALL_TYPES)
 op("store_aligned", "(a.store_aligned(q), a)", "Bq", ALL_TYPES)
 op("store_unaligned", "(a.store_unaligned(q), a)", "Bq", ALL_TYPES)
 op("broadcast", "B(s)", "S", ALL_TYPES)
+op("get", "a.get((std::size_t)n)", "BI", ALL_TYPES, "T")
+op("bool_get", "(uint64_t)m.get((std::size_t)n)", "MI", ALL_TYPES, "X")
 # gather / scatter (same element type; index batch of the unsigned / signed integer type of the same width)
 op("gather", "B::gather(p, *(xsimd::batch<xsimd::as_unsigned_integer_t<T>, A> const*)(void const*)p_a)", "pB", ALL_TYPES)
 op("gather_s", "B::gather(p, *(xsimd::batch<xsimd::as_integer_t<T>, A> const*)(void const*)p_a)", "pB", ALL_TYPES)
